@@ -348,6 +348,10 @@ def consecutive_blocks(elt, lv, n, shp):
     if mentions(A_t, lv) or not (isinstance(idx, Term) and idx.op == "slice" and len(idx.args) == 3 and idx.args[2] == _NONE):
         return None
     lo, hi = idx.args[0], idx.args[1]
+    # zip(t[:-1], t[1:]) spelling: t[:-1][i] is t[i] and t[1:][i] is t[i + 1]
+    if isinstance(lo, Term) and lo.op == "getitem" and lo.args[1] == lv and isinstance(lo.args[0], Term) and lo.args[0].op == "getitem" and lo.args[0].args[1] == T("slice", _NONE, const(-1), _NONE) and isinstance(hi, Term) and hi.op == "getitem" and hi.args[1] == lv and isinstance(hi.args[0], Term) and hi.args[0].op == "getitem" and hi.args[0].args[1] == T("slice", const(1), _NONE, _NONE) and hi.args[0].args[0] == lo.args[0].args[0]:
+        base_t = lo.args[0].args[0]
+        lo, hi = T("getitem", base_t, lv), T("getitem", base_t, T("add", lv, const(1)))
     if not (isinstance(lo, Term) and lo.op == "getitem" and lo.args[1] == lv and isinstance(hi, Term) and hi.op == "getitem" and hi.args[0] == lo.args[0]):
         return None
     nxt = hi.args[1]
